@@ -1122,3 +1122,82 @@ Proof.
   cbn [run_c19]. rewrite Ho, Hi, Ho0, Hi0. reflexivity.
 Qed.
 
+
+(* ------------------------------------------------------------------------------------------ *)
+(* tuple field types: the hypothesis of align1_sound (`f_a1 f = true -> f_align f = 1`) is DISCHARGED for them from the
+   same hypothesis on their elements - because the library's impl bounds EVERY element (align1.rs 40-66) *)
+Lemma cap_rust a : cap rust_repr a = a.
+Proof. reflexivity. Qed.
+
+Theorem tuple_a1_sound :
+  forall es : list fld,
+    (forall e, In e es -> f_a1 e = true -> f_align e = 1) ->
+    f_a1 (tuple_fld es) = true ->
+    f_align (tuple_fld es) = 1 /\ f_size (tuple_fld es) = fsum es.
+Proof.
+  intros es He Ha. cbn [tuple_fld f_a1 f_align f_size] in *.
+  rewrite forallb_forall in Ha.
+  assert (H1 : forall f, In f (lays es) -> cap rust_repr (falign f) = 1).
+  { intros f Hf. unfold lays in Hf. apply in_map_iff in Hf as [e [<- Hin]]. rewrite cap_rust. cbn [lay falign snd].
+    apply He; auto. }
+  destruct (all1_struct rust_repr (lays es) eq_refl H1) as [A S]. split; [exact A|].
+  rewrite S. unfold fsum, lays, sizes. rewrite map_map. reflexivity.
+Qed.
+
+(* the converse direction of the impl: a tuple of Align1 elements IS certified (the documented form keeps compiling) *)
+Theorem tuple_a1_complete :
+  forall es : list fld, forallb f_a1 es = true -> f_a1 (tuple_fld es) = true.
+Proof. intros es H. exact H. Qed.
+
+(* an impl that leaves the FIRST element unbounded (`where T2: Align1, .., Tn: Align1`) certifies (u64, u8) *)
+Definition tuple_fld_first_unbounded (es : list fld) : fld :=
+  mkFld (f_size (tuple_fld es)) (f_align (tuple_fld es)) (forallb f_a1 (tl es))
+        false (forallb f_zeroable es) false false (existsb f_param es) (fun _ => false).
+
+Theorem tuple_a1_first_unbounded_refuted :
+  exists es : list fld,
+    (forall e, In e es -> f_a1 e = true -> f_align e = 1)
+    /\ f_a1 (tuple_fld_first_unbounded es) = true
+    /\ f_align (tuple_fld_first_unbounded es) = 8
+    /\ f_a1 (tuple_fld es) = false.
+Proof.
+  exists [pod_fld 8 8; pod_fld 1 1]. split; [|vm_compute; repeat split; reflexivity].
+  intros e [<-|[<-|[]]]; vm_compute; intros; congruence.
+Qed.
+
+(* every field type of the correspondence's menu whose model says "an Align1 impl applies" has alignment 1, and no
+   field type has a negative size or a non-positive alignment: the hypotheses of the soundness theorems hold for every
+   declaration the runner decodes *)
+Lemma pod_fld_a1 s a : f_a1 (pod_fld s a) = true -> f_align (pod_fld s a) = 1.
+Proof. cbn. intros H. now apply Z.eqb_eq. Qed.
+
+Theorem menu_a1_sound :
+  forall (c : Z) (f : fld), menu c = Some f -> f_a1 f = true -> f_align f = 1.
+Proof.
+  intros c f H. unfold menu in H.
+  destruct ((20 <=? c) && (c <=? 32));
+  repeat match type of H with
+         | context [c =? ?k] => destruct (c =? k); [inversion H; subst; clear H; vm_compute; intros; congruence|]
+         end.
+  - inversion H; subst. apply pod_fld_a1.
+  - discriminate.
+Qed.
+
+Theorem field_of_a1_sound :
+  forall (g c : Z) (f : fld),
+    field_of (menu g) c = Some f -> f_a1 f = true -> f_align f = 1.
+Proof.
+  intros g c f. unfold field_of.
+  destruct (c =? 99).
+  { destruct (menu g) as [i|] eqn:E; [|discriminate]. intros H; inversion H; subst. cbn. apply (menu_a1_sound g i E). }
+  assert (T : forall es, (forall e, In e es -> f_a1 e = true -> f_align e = 1) ->
+                         f_a1 (tuple_fld es) = true -> f_align (tuple_fld es) = 1)
+    by (intros es He Ha; apply (tuple_a1_sound es He Ha)).
+  destruct (c =? 97).
+  { destruct (menu g) as [i|] eqn:E; [|discriminate]. intros H; inversion H; subst. apply T.
+    intros e [<-|[<-|[]]]; [cbn; apply (menu_a1_sound g i E)|vm_compute; congruence]. }
+  destruct (c =? 98).
+  { destruct (menu g) as [i|] eqn:E; [|discriminate]. intros H; inversion H; subst. apply T.
+    intros e [<-|[<-|[]]]; [vm_compute; congruence|cbn; apply (menu_a1_sound g i E)]. }
+  apply menu_a1_sound.
+Qed.
